@@ -375,6 +375,10 @@ func (sig *Signature) Bytes() []byte {
 }
 
 func SignBlindSignature(pp *PP, σ BlindSignature, sk SK) (*Signature, error) {
+	if len(σ.a) < len(pp.gs) || len(σ.b) < len(pp.gs) || len(sk.ys) < len(pp.gs) {
+		return nil, fmt.Errorf("expected %d ciphertexts and key elements but got %d, %d and %d", len(pp.gs), len(σ.a), len(σ.b), len(sk.ys))
+	}
+
 	mPrime := pp.c.HashToZr(hash(σ.cm.Bytes()))
 	cm := σ.cm.Copy()
 	cm.Add(pp.gs[len(pp.gs)-1].Mul(mPrime))
@@ -439,6 +443,10 @@ func (sigPoK *SigPoK) fromBytes(c *math.Curve, bytes []byte) error {
 	var rspok RawSigPok
 	if _, err := asn1.Unmarshal(bytes, &rspok); err != nil {
 		return fmt.Errorf("malformed proof of signature knowledge: %v", err)
+	}
+
+	if len(rspok.Data) != 5 {
+		return fmt.Errorf("malformed proof of signature knowledge: %d elements instead of 5", len(rspok.Data))
 	}
 
 	sigPoK.ψ = PoKofSignaturePoCorrectForm{}
@@ -723,6 +731,10 @@ func (ξ *BlindCorrectFormProof) Bytes() []byte {
 }
 
 func (ξ *BlindCorrectFormProof) Verify(c *math.Curve, n int, a, b []*math.G1, cm *math.G1, g *math.G1, g0 *math.G1, h *math.G1, u *math.G1, gs []*math.G1) error {
+	if len(ξ.x) < n || len(ξ.y) < n || len(ξ.d) < n || len(ξ.f) < n || len(a) < n || len(b) < n || len(gs) < n {
+		return fmt.Errorf("proof and ciphertexts are shorter than %d", n)
+	}
+
 	digest := randomOracleForBlindingProof(n, ξ.d, ξ.f, ξ.s, a, b, cm, g, g0, h, u, gs)
 	e := c.HashToZr(digest)
 
@@ -817,6 +829,9 @@ func (ψ *PoKofSignaturePoCorrectForm) Bytes() []byte {
 }
 
 func (ψ *PoKofSignaturePoCorrectForm) Verify(c *math.Curve, ν, hε *math.G1, g2, X, κ *math.G2, Y []*math.G2) error {
+	if len(ψ.x) > len(Y) {
+		return fmt.Errorf("proof is for %d messages but the key is for %d", len(ψ.x), len(Y))
+	}
 
 	digest := randomOracleForPoKofSignature(ψ.Γ, ψ.Φ, ν, hε, g2, X, κ, Y)
 	e := c.HashToZr(digest)
